@@ -380,4 +380,67 @@ theorem transient_value_valid {t : Transient} (h : checkTransient Fc t = .ok) : 
     | true => rfl
     | false => exact absurd ⟨hr, by simp [hd]⟩ h2
 
+/-! ### the recipient's side of a forwarded message -/
+
+/-- No pointer member of a payload that is decoded again on the recipient's side is dereferenced
+without a nil check (the regenerated table is empty). -/
+theorem payloadDerefs_none : Fc.payloadDerefs = [] := by decide
+
+theorem payloadUnguarded_current (fn path dtype : String) : payloadUnguarded Fc fn path dtype = false := by
+  simp [payloadUnguarded, payloadDerefs_none]
+
+theorem isChatRefresh_ok (d : ServerData) : ∃ b, isChatRefresh Fc d = .ok b := by
+  unfold isChatRefresh
+  split
+  · exact ⟨_, rfl⟩
+  · cases d.chat with
+    | some r => exact ⟨_, rfl⟩
+    | none => simp [payloadUnguarded_current]
+
+theorem deliverRcpt_no_crash (r : Rcpt) (kind : String) (d : ServerData) (site : String) :
+    deliverRcpt Fc r kind d ≠ .crash site := by
+  have hrev : Fc.deferredTablesReviewed = true := by decide
+  obtain ⟨b, hb⟩ := isChatRefresh_ok d
+  unfold deliverRcpt
+  simp only [hrev, payloadUnguarded_current, hb, Bool.not_true, Bool.false_eq_true, if_false, and_false]
+  cases b <;> (repeat' split) <;> simp_all
+
+theorem deliver_no_crash (st : St) (kind : String) (d : ServerData) (o : Obs) (site : String) :
+    deliver Fc st kind d o ≠ .crash site := by
+  unfold deliver
+  split
+  · simp
+  · cases h : deliverRcpt Fc st.world.rcpt kind d with
+    | crash s2 => exact absurd h (deliverRcpt_no_crash _ _ _ _)
+    | dropped => simp
+    | sent r => simp
+
+theorem amb_crash {s : Sess} {x : Outcome} {site : String} (h : x.amb s = .crash site) : x = .crash site := by
+  cases x with
+  | crash s2 => simpa [Outcome.amb] using h
+  | ok o n => simp [Outcome.amb] at h
+
+/-- Whatever `deliver` leaves for the bystander was addressed to it by `route`. -/
+theorem deliver_ok_inv {st : St} {kind : String} {d : ServerData} {o o' : Obs} {next : St}
+    (h : deliver Fc st kind d o = .ok o' next) :
+    (o'.bMust = o.bMust ∨ o'.bMust = []) ∧ o'.bMay = o.bMay := by
+  unfold deliver at h
+  split at h
+  · injection h with ho hn; subst ho; simp
+  · cases hd : deliverRcpt Fc st.world.rcpt kind d with
+    | crash s2 => exact absurd hd (deliverRcpt_no_crash _ _ _ _)
+    | dropped => rw [hd] at h; simp only [] at h; injection h with ho hn; subst ho; simp
+    | sent r =>
+      rw [hd] at h; simp only [] at h; injection h with ho hn; subst ho
+      split <;> simp
+
+theorem amb_ok_inv {s : Sess} {x : Outcome} {o : Obs} {next : St} (h : x.amb s = .ok o next) :
+    ∃ o', x = .ok o' next ∧ o.bMust = o'.bMust ∧ o.bMay = o'.bMay := by
+  cases x with
+  | crash s2 => simp [Outcome.amb] at h
+  | ok o' n =>
+    simp only [Outcome.amb] at h
+    injection h with ho hn; subst ho hn
+    refine ⟨o', rfl, ?_, ?_⟩ <;> split <;> rfl
+
 end SigModel.ShapesClient
